@@ -11,6 +11,8 @@
   eventIDFormat, restrictedJoinServernameFunc, signatureValidityCheckFunc).  Core Lean only.
 -/
 import VModel.Event
+import VModel.Auth
+import VModel.Sign
 namespace V.Signers
 open V V.Json V.GoJson
 
@@ -142,6 +144,98 @@ def verifyEventSignatures (row : VGen.VersionRow) (e : Event) (senderDomain : Ex
   | .ok rs =>
     if verifierFails then .error (errRej "verifier")
     else if rs.all valid then .ok () else .error (errRej "signature")
+
+/-! ## The pseudo-ID room version (org.matrix.msc4014)
+
+The sender ID (and an invite's state key) is itself an ed25519 public key: the event is verified against
+those keys by `JSONVerifierSelf` (an oracle `selfValid name` here: the name decodes as base64 to a key under
+which `VerifyJSON(name, "ed25519:1", key, redacted event)` succeeds — C02).  For joins the `mxid_mapping`
+of the content is verified first, through the caller's verifier, for every server listed in
+`mxid_mapping.signatures` — among which must be the server of `mxid_mapping.user_id` (/repo e791b10). -/
+
+structure Mapping where
+  servers : List Bytes      -- keys of mxid_mapping.signatures
+  userID : Bytes
+  deriving Repr
+
+/-- `*MXIDMapping` inside MemberContent: outer `none` = type error, `some none` = nil pointer -/
+def decodeMapping (v : Option JVal) : Option (Option Mapping) :=
+  match v with
+  | none => some none
+  | some .null => some none
+  | some (.obj kvs) =>
+    let k := decString (lookupField kvs b!"user_room_key")
+    let u := decString (lookupField kvs b!"user_id")
+    let sigs : Option (Option Sign.SigMap) := match lookupField kvs b!"signatures" with
+      | none => some none
+      | some sv => Sign.decodeOuterInto Sign.decodeSigVal none sv
+    match sigs with
+    | none => none
+    | some sm => if k.err || u.err then none else some (some ⟨(sm.getD []).map (·.1), u.val⟩)
+  | some _ => none
+
+/-- `getMXIDMapping`: the full `MemberContent` decode must succeed and carry a mapping. -/
+def getMXIDMapping (e : Event) : Except Err Mapping :=
+  match e.content with
+  | some (.obj kvs) =>
+    let errs : Bool :=
+      (decString (lookupField kvs b!"membership")).err || (decString (lookupField kvs b!"displayname")).err ||
+      (decString (lookupField kvs b!"avatar_url")).err || (decString (lookupField kvs b!"reason")).err ||
+      (decBool false (lookupField kvs b!"is_direct")).err ||
+      (Auth.decodeThirdParty (lookupField kvs b!"third_party_invite")).err ||
+      (decString (lookupField kvs b!"join_authorised_via_users_server")).err
+    match decodeMapping (lookupField kvs b!"mxid_mapping") with
+    | none => .error (errRej "member-content")
+    | some none => if errs then .error (errRej "member-content") else .error (errRej "missing-mxid-mapping")
+    | some (some mp) => if errs then .error (errRej "member-content") else .ok mp
+  | some .null => .error (errRej "missing-mxid-mapping")
+  | _ => .error (errRej "member-content")
+
+structure PseudoResult where
+  /-- servers the caller's verifier was asked about (`none`: it was never called) -/
+  asked : Option (List Bytes)
+  verdict : Except Err Unit
+
+/-- Model of `VerifyEventSignatures` for the pseudo-ID version. -/
+def verifyPseudo (row : VGen.VersionRow) (e : Event) (valid : Request → Bool) (verifierFails : Bool)
+    (selfValid : Bytes → Bool) : PseudoResult :=
+  let finish (asked : Option (List Bytes)) (needed : List Bytes) : PseudoResult :=
+    ⟨asked, if needed.all selfValid then .ok () else .error (errRej "signature")⟩
+  let n0 : List Bytes := [e.sender]
+  if e.type != b!"m.room.member" then finish none n0
+  else
+    match membership e with
+    | .error err => ⟨none, .error err⟩
+    | .ok m =>
+      -- joins: the mxid_mapping, through the caller's verifier
+      let stage1 : Except PseudoResult (Option (List Bytes)) :=
+        if m == b!"join" then
+          match getMXIDMapping e with
+          | .error err => .error ⟨none, .error err⟩
+          | .ok mp =>
+            -- the server of the user the mapping names must be among the signers (commit e791b10)
+            match splitIDDomain 0x40 mp.userID with
+            | none => .error ⟨none, .error (errRej "mxid-mapping-user")⟩
+            | some userServer =>
+            if !mp.servers.contains userServer then .error ⟨none, .error (errRej "mxid-mapping-unsigned")⟩
+            else if verifierFails then .error ⟨some mp.servers, .error (errRej "verifier")⟩
+            else if mp.servers.all (fun s => valid ⟨s, e.originServerTS, strictValidity row⟩) then .ok (some mp.servers)
+            else .error ⟨some mp.servers, .error (errRej "mxid-mapping")⟩
+        else .ok none
+      match stage1 with
+      | .error r => r
+      | .ok asked =>
+        let n1 : List Bytes :=
+          if m == b!"invite" then
+            match e.stateKey with
+            | some sk => addNeeded sk n0
+            | none => n0      -- unreachable: Membership() insists on a state key
+          else n0
+        if m == b!"join" then
+          match restrictedJoinServername row e.content with
+          | .error err => ⟨asked, .error err⟩
+          | .ok auth => finish asked (if auth.isEmpty then n1 else addNeeded auth n1)
+        else finish asked n1
 
 /-! ## Specification: the required servers, from the property text
 
